@@ -6,6 +6,7 @@ import (
 	"go/token"
 	"go/types"
 	"path/filepath"
+	"regexp"
 	"sort"
 	"strings"
 )
@@ -31,9 +32,9 @@ type Ctx struct {
 	// whose type invariant is being assumed
 	curAllocState *State
 	// cells of variables assigned once in their lexical family: content survives havocs
-	immCells []immCell
+	immCells     []immCell
 	assumeProbes []assumeProbe
-	shapeDone map[string]bool
+	shapeDone    map[string]bool
 }
 
 type structInfo struct {
@@ -778,12 +779,24 @@ func (c *Ctx) constTerm(val constant.Value, t types.Type) Term {
 }
 
 // box/unbox for interface payloads
+var boundVarRe = regexp.MustCompile(`\bq_[A-Za-z0-9_]+\b`)
+
 func (c *Ctx) box(v Term) Term {
 	fn := "box_" + sanitizeIdent(v.Sort)
 	un := "unbox_" + sanitizeIdent(v.Sort)
 	c.declareFun(fn, []string{v.Sort}, SInt)
 	c.declareFun(un, []string{SInt}, v.Sort)
 	b := app(SInt, fn, v)
+	if boundVarRe.MatchString(v.S) {
+		// the boxed term mentions a bound variable of a contract quantifier: an instance of the
+		// inverse law cannot be stated outside the binder; state the law itself, once per sort
+		key := "boxlaw:" + v.Sort
+		if !c.declared[key] {
+			c.declared[key] = true
+			c.assumeAlways(Term{fmt.Sprintf("(forall ((x %s)) (! (= (%s (%s x)) x) :pattern ((%s x))))", v.Sort, un, fn, fn), SBool})
+		}
+		return b
+	}
 	c.assume(eq(app(v.Sort, un, b), v))
 	return b
 }
